@@ -116,7 +116,33 @@ def run(ck, P):
                   "push_evt decides on conditions the decision table does not know: %s" % bad[clause][0][:300], path=bad[clause][1])
     # comparison operator of the size test: with batch.len == 0 (default) it must be a tautology for unsigned lengths
     sizecmp = [b.term["cond"] for b in pe.blocks.values() if b.term and b.term.get("cond") is not None and "batch.len" in S(b.term["cond"])]
-    okop = len(sizecmp) == 1 and strip(sizecmp[0])["k"] == "bin" and strip(sizecmp[0])["op"] == ">=" and S(strip(sizecmp[0])["r"]) == "mod->batch.len"
+    # however it is spelt (a >= b, !(a < b), b <= a, with either arm first), the handler runs exactly on "pending >= batch.len"
+    okop = False
+    if len(sizecmp) == 1 and strip(sizecmp[0])["k"] == "bin":
+        c0 = strip(sizecmp[0])
+        l_, r_, op_ = S(c0["l"]), S(c0["r"]), c0["op"]
+        pol = None
+        if r_ == "mod->batch.len" and op_ in (">=", "<"):
+            pol = op_ == ">="
+        elif l_ == "mod->batch.len" and op_ in ("<=", ">"):
+            pol = op_ == "<="
+        if pol is not None:
+            blk = [b for b in pe.blocks.values() if b.term and b.term.get("cond") is sizecmp[0]][0]
+            inv = {e.block.id for e in pe.calls("call_pubsub_cb")}
+
+            def reaches(start):
+                seen_, st_ = set(), [start]
+                while st_:
+                    x_ = st_.pop()
+                    if x_ in inv:
+                        return True
+                    if x_ in seen_ or x_ is None:
+                        continue
+                    seen_.add(x_)
+                    st_.extend(s_ for s_ in pe.blocks[x_].succs if s_ is not None)
+                return False
+            arms = {br_: s_ for (s_, _c, br_) in pe.edges(blk.id)}
+            okop = reaches(arms.get(pol)) and not reaches(arms.get(not pol))
     ck.ob("C13.1-DECISION", pe.site("size test >="), okop, "size test is '%s'" % [S(c) for c in sizecmp])
     lowret = [b for b in pe.blocks.values() if b.term and b.term.get("cond") is not None and S(b.term["cond"]) == aL]
     ck.ob("C13.1-DECISION", pe.site("LOW tested after HIGH"), bool(lowret), "LOW early return present: %s" % bool(lowret), nontrivial=False)
